@@ -26,10 +26,12 @@ impl LogosLexer {
 }
 
 // what the property needs of a multi-line-string bump of c bytes over remainder `rem`:
-// in range, ends at end of input or just before a newline (hence on a char boundary),
+// in range, ends at end of input or just before a LINE TERMINATOR — `\n`, or the `\r` of `\r\n` (both ASCII: a char boundary) —
 // and spans at least two lines (contains a newline strictly inside).
 pub open spec fn mls_bump_ok(rem: Seq<u8>, c: int) -> bool {
     &&& 2 <= c <= rem.len()
-    &&& (c == rem.len() || rem[c] == 10u8)
+    &&& (c == rem.len() || rem[c] == 10u8 || (rem[c] == 13u8 && c + 1 < rem.len() && rem[c + 1] == 10u8))
+    // a two-byte terminator `\r\n` is never split: the token does not end between its bytes (the `\r` would become part of the string's last line)
+    &&& !(c < rem.len() && rem[c] == 10u8 && rem[c - 1] == 13u8)
     &&& exists|k: int| 0 <= k < c && #[trigger] rem[k] == 10u8
 }
